@@ -75,3 +75,33 @@ class Req:
     a: int
     b: Optional[float] = None
     c: Optional[int] = 3  # a field that accepts None although its default is not None
+
+
+import abc  # noqa: E402
+
+
+class AbstractB(abc.ABC):
+    def __init__(self, a: int = 0):
+        self.a = a
+
+    @abc.abstractmethod
+    def run(self):
+        ...
+
+
+class Concrete(AbstractB):
+    def __init__(self, a: int = 0, b: float = 1.0):
+        super().__init__(a)
+        self.b = b
+        LOG.append((type(self).__name__, dict(a=a, b=b), self))
+
+    def run(self):
+        return self.a
+
+
+def make_base(w: int = 9) -> Base:
+    """A callable returning an instance of the base class."""
+    return Base(w=w)
+
+
+NOT_A_CLASS = 5
